@@ -20,6 +20,17 @@ fn planted_structure(item: &str, at_start: bool) -> Option<&'static str> {
 
 pub fn plant(r: &GenRule, variant: usize) -> Option<GenRule> {
     let mut p = r.clone();
+    if variant >= 5 {
+        // the literal with a matrix (`ɮ:[-long]`, `ɮ:[+long]`): it stands for /ɮ/ itself, short or long, not for its labialised, palatalised or
+        // pharyngealised twins, which do occur in four of the words
+        let lit: &'static str = if variant == 5 { "ɮ:[-long]" } else { "ɮ:[+long]" };
+        if r.is_insertion() {
+            if let Some(x) = p.special.as_mut() { x.push(lit); return Some(p); }
+            if p.ctx.is_empty() { return None; }
+            for e in p.ctx.iter_mut() { let at = if e.1.last() == Some(&"#") { e.1.len() - 1 } else { e.1.len() }; e.1.insert(at, lit); }
+        } else { for alt in p.ins.iter_mut() { alt.push(lit); } }
+        return Some(p);
+    }
     if variant >= 3 {
         // inside a structure: every input alternative (insertion: every context environment) must hold a structure, whose first one gets the plant
         let at_start = variant == 4;
@@ -89,6 +100,8 @@ pub fn mixed_condensed() -> Vec<String> {
 pub fn decorated_words(thorough: bool) -> Vec<(String, CW)> {
     let mut out: Vec<(String, CW)> = vec![];
     for t in rulegen::WC { if let Out::Ok(Ok(w)) = guarded(1_000_000, || av::parse_word(t, None)) { out.push((t.to_string(), cw_of(&w))); } }
+    // near misses of the planted literal: /ɮ/ with a secondary articulation, short and long
+    for t in ["taɮʷ", "ɮʲa.ta", "paɮˤ.ta", "taɮʷːa"] { if let Out::Ok(Ok(w)) = guarded(1_000_000, || av::parse_word(t, None)) { out.push((t.to_string(), cw_of(&w))); } }
     if thorough {
         let inv: Vec<SegBits> = ["p", "t", "a", "i"].iter().map(|t| seg(t)).collect();
         for (k, mut w) in word_space(&inv, 3).into_iter().enumerate() {
@@ -115,7 +128,7 @@ fn eval_text(text: &str, words: &[(String, CW)], a: &mut Acc) {
         match got {
             Out::Ok(Ok(g)) => {
                 if g == *w { a.ok_same += 1; } else {
-                    a.viols.push(Viol { key: format!("{}|{}", text, wt), desc: format!("`{}` cannot match /{}/ (no /ɮ/ in it) but returned /{}/", text, wt, show_cw(&g)), case: json!({"rule": text, "word": cw_json(w)}) });
+                    a.viols.push(Viol { key: format!("{}|{}", text, wt), desc: format!("`{}` cannot match /{}/ (no plain /ɮ/ in it) but returned /{}/", text, wt, show_cw(&g)), case: json!({"rule": text, "word": cw_json(w)}) });
                 }
             }
             Out::Ok(Err(_)) => a.errs += 1,
@@ -127,7 +140,7 @@ fn eval_text(text: &str, words: &[(String, CW)], a: &mut Acc) {
 pub fn run() -> i32 {
     let mut r = Report::new("C06");
     let n = if r.thorough() { 4 } else { 3 };
-    r.rule = format!("every rule of rulegen({}) (full documented grammar: sets, optionals, ellipses, structures, variables, alphas, environment sets, special environment, condensed rules) (quick: plus every insertion rule of size 4 and every size-4 rule with an ellipsis inside its input) with a mandatory literal /ɮ/ planted in every input alternative (insertion: in every context environment), at the end, at the start and before the last input item, and as an extra member at the end / start of a structure ⟨..⟩ of the input (insertion: of the context); plus every condensed rule that pairs an insertion alternative with an insertion / substitution / deletion / metathesis alternative over 9 inputs x 3-5 outputs x 5 environments (own or shared), planted likewise; plus blank and comment-only lines; x hand-shaped words{}; whenever the call returns Ok the structural word must equal the input. Non-trivial = rule compiled and the call returned Ok.", n, if r.thorough() { " and all decorated words of W(I4,3)" } else { "" });
+    r.rule = format!("every rule of rulegen({}) (full documented grammar: sets, optionals, ellipses, structures, variables, alphas, environment sets, special environment, condensed rules) (quick: plus every insertion rule of size 4 and every size-4 rule with an ellipsis inside its input) with a mandatory literal /ɮ/ planted in every input alternative (insertion: in every context environment), at the end, at the start and before the last input item, and as an extra member at the end / start of a structure ⟨..⟩ of the input (insertion: of the context), and as `ɮ:[-long]` / `ɮ:[+long]` at the end (four of the words hold /ɮʷ ɮʲ ɮˤ ɮʷː/, which are not /ɮ/); plus every condensed rule that pairs an insertion alternative with an insertion / substitution / deletion / metathesis alternative over 9 inputs x 3-5 outputs x 5 environments (own or shared), planted likewise; plus blank and comment-only lines; x hand-shaped words{}; whenever the call returns Ok the structural word must equal the input. Non-trivial = rule compiled and the call returned Ok.", n, if r.thorough() { " and all decorated words of W(I4,3)" } else { "" });
     r.assumptions.push("thorough: size-4 rules are restricted to those containing a structure, %, $, an ellipsis, an optional, a variable, or an insertion/deletion/metathesis output (the cursor-logic constructs); all size <= 3 rules are included".into());
     let words = decorated_words(r.thorough());
     let mut bases = rulegen::bases_upto(n);
@@ -142,7 +155,7 @@ pub fn run() -> i32 {
         let (b, rest) = &bases[i];
         for rule in rulegen::expand(b, *rest) {
             if thorough && rule.n_items() == 4 && !rule.has(&["⟨", "%", "$", "...", "(", "=", "*", "&", " 1"]) { continue; }
-            for variant in 0..5 {
+            for variant in 0..7 {
                 let Some(p) = plant(&rule, variant) else { continue };
                 let text = p.text();
                 let k = if p.is_insertion() { "insertion" } else if text.contains("> *") { "deletion" } else if text.contains("> &") { "metathesis" } else { "substitution" };
